@@ -139,7 +139,8 @@ theorem pollReadFrame_spec (cv) (script : List RdEv) : ∀ (r : Reader) (wire : 
       o.r.frame.data ++ o.wire = r.frame.data ++ wire ∧
       (∀ n, o.res = .ready (some n) → hdr cv o.r.frame.data = some n) ∧
       (∀ e, o.res = .err e → e = .transport) ∧
-      (∀ e ∈ o.trace, e.1 ≤ MAX_FRAME_LEN) := by
+      (∀ e ∈ o.trace, e.1 ≤ MAX_FRAME_LEN) ∧
+      o.wire.length ≤ wire.length := by
   induction script with
   | nil =>
     intro r wire hi
@@ -147,12 +148,12 @@ theorem pollReadFrame_spec (cv) (script : List RdEv) : ∀ (r : Reader) (wire : 
     rw [frameReady_eq cv _ hi.fb]
     cases h : hdr cv r.frame.data with
     | none =>
-      refine ⟨_, rfl, hi, rfl, rfl, rfl, ?_, ?_, ?_⟩
+      refine ⟨_, rfl, hi, rfl, rfl, rfl, ?_, ?_, ?_, Nat.le_refl _⟩
       · intro n hn; cases hn
       · intro e he; simp at he
       · intro e he; simp at he; subst he; exact hi.cap_le
     | some n =>
-      refine ⟨_, rfl, hi, rfl, rfl, rfl, ?_, ?_, ?_⟩
+      refine ⟨_, rfl, hi, rfl, rfl, rfl, ?_, ?_, ?_, Nat.le_refl _⟩
       · intro n' hn; simp at hn; subst hn; exact h
       · intro e he; simp at he
       · intro e he; simp at he
@@ -162,19 +163,19 @@ theorem pollReadFrame_spec (cv) (script : List RdEv) : ∀ (r : Reader) (wire : 
     rw [frameReady_eq cv _ hi.fb]
     cases h : hdr cv r.frame.data with
     | some n =>
-      refine ⟨_, rfl, hi, rfl, rfl, rfl, ?_, ?_, ?_⟩
+      refine ⟨_, rfl, hi, rfl, rfl, rfl, ?_, ?_, ?_, Nat.le_refl _⟩
       · intro n' hn; simp at hn; subst hn; exact h
       · intro e he; simp at he
       · intro e he; simp at he
     | none =>
       cases ev with
       | pending =>
-        refine ⟨_, rfl, hi, rfl, rfl, rfl, ?_, ?_, ?_⟩
+        refine ⟨_, rfl, hi, rfl, rfl, rfl, ?_, ?_, ?_, Nat.le_refl _⟩
         · intro n hn; cases hn
         · intro e he; simp at he; try (exact he.symm)
         · intro e he; simp at he; subst he; exact hi.cap_le
       | err =>
-        refine ⟨_, rfl, hi, rfl, rfl, rfl, ?_, ?_, ?_⟩
+        refine ⟨_, rfl, hi, rfl, rfl, rfl, ?_, ?_, ?_, Nat.le_refl _⟩
         · intro n hn; cases hn
         · intro e he; simp at he; try (exact he.symm)
         · intro e he; simp at he; subst he; exact hi.cap_le
@@ -187,7 +188,7 @@ theorem pollReadFrame_spec (cv) (script : List RdEv) : ∀ (r : Reader) (wire : 
           rw [← hbs]; exact take_append_drop_len _ _
         by_cases hemp : bs.isEmpty
         · simp only [hemp, if_true]
-          refine ⟨_, rfl, hi, rfl, rfl, rfl, ?_, ?_, ?_⟩
+          refine ⟨_, rfl, hi, rfl, rfl, rfl, ?_, ?_, ?_, Nat.le_refl _⟩
           · intro n hn; simp at hn
           · intro e he; simp at he
           · intro e he; simp at he; subst he; exact hi.cap_le
@@ -198,9 +199,9 @@ theorem pollReadFrame_spec (cv) (script : List RdEv) : ∀ (r : Reader) (wire : 
           have hi' : RInv { r with frame := { r.frame with data := r.frame.data ++ bs } } := by
             refine ⟨hi.fb, hi.fc, ?_, hi.pc, hi.pb, hi.pl⟩
             unfold Buffer.stop at hfit; rw [hi.fc] at hfit; simpa using hfit
-          obtain ⟨o, ho, hio, hp, hn, hw, hr, he', ht⟩ := ih _ (wire.drop bs.length) hi'
+          obtain ⟨o, ho, hio, hp, hn, hw, hr, he', ht, hwl⟩ := ih _ (wire.drop bs.length) hi'
           simp only [ho]
-          refine ⟨_, rfl, hio, hp, hn, ?_, hr, he', ?_⟩
+          refine ⟨_, rfl, hio, hp, hn, ?_, hr, he', ?_, ?_⟩
           · simp only [] at hw ⊢
             rw [hw, List.append_assoc, hwire]
           · intro e he
@@ -208,6 +209,7 @@ theorem pollReadFrame_spec (cv) (script : List RdEv) : ∀ (r : Reader) (wire : 
             rcases he with rfl | he
             · exact hi.cap_le
             · exact ht e he
+          · simp only [List.length_drop] at hwl; simp only []; omega
 
 /-- What the read half still owes the caller: the buffered plaintext, then the payloads of every further frame of
 (buffered bytes ++ rest of the stream) that authenticates in sequence. -/
@@ -239,6 +241,10 @@ theorem hdr_some {cv} {s : List WByte} {n : Nat} (h : hdr cv s = some n) :
   | [], h => simp [hdr] at h
   | [_], h => simp [hdr] at h
 
+/-- payloads of the frames of (buffered bytes ++ rest of the stream) that will still authenticate in sequence -/
+def chunksOf (cv : Nat → Nat → Nat) (r : Reader) (wire : List WByte) : List (List Nat) :=
+  (parse cv r.nonce (r.frame.slice ++ wire)).1
+
 /-- how the outcome of `poll_read_payload` (with an empty payload buffer) derives from that of `poll_read_frame` -/
 def PayLink (cv : Nat → Nat → Nat) (r : Reader) (wire : List WByte) (f : ROut (Option Nat)) (o : ROut Unit) : Prop :=
   match f.res with
@@ -255,35 +261,39 @@ theorem pollReadPayload_spec (cv) (script : List RdEv) (r : Reader) (wire : List
       todo cv o.r o.wire = todo cv r wire ∧ rstatus cv o.r o.wire = rstatus cv r wire ∧
       (o.res = .err .invalidData → rstatus cv r wire = .bad ∧ todo cv r wire = []) ∧
       (∀ e ∈ o.trace, e.1 ≤ MAX_FRAME_LEN) ∧
-      (r.payload.len = 0 → ∃ f, pollReadFrame cv script r wire = .ok f ∧ PayLink cv r wire f o) := by
+      (r.payload.len = 0 → ∃ f, pollReadFrame cv script r wire = .ok f ∧ PayLink cv r wire f o) ∧
+      (chunksOf cv o.r o.wire = chunksOf cv r wire ∨
+        (r.payload.slice = [] ∧ ∃ p, chunksOf cv r wire = p :: chunksOf cv o.r o.wire ∧ o.r.payload.slice = p)) ∧
+      o.wire.length ≤ wire.length := by
   unfold pollReadPayload
   by_cases hp : r.payload.len > 0
   · simp only [hp, if_true]
-    refine ⟨_, rfl, hi, rfl, rfl, ?_, ?_, ?_⟩
+    refine ⟨_, rfl, hi, rfl, rfl, ?_, ?_, ?_, Or.inl rfl, Nat.le_refl _⟩
     · intro h; cases h
     · intro e he; simp at he
     · intro h; omega
   · simp only [hp, if_false]
     have hp0 : r.payload.slice = [] := slice_nil_of_len_zero _ (by omega)
-    obtain ⟨o, ho, hio, hpay, hn, hw, hr, herr, ht⟩ := pollReadFrame_spec cv script r wire hi
+    obtain ⟨o, ho, hio, hpay, hn, hw, hr, herr, ht, hwl⟩ := pollReadFrame_spec cv script r wire hi
     simp only [ho]
     have hsame : todo cv o.r o.wire = todo cv r wire ∧ rstatus cv o.r o.wire = rstatus cv r wire := by
       unfold todo rstatus; rw [hpay, hn, hio.fslice, hi.fslice, hw]; exact ⟨rfl, rfl⟩
     have hpeq : parse cv r.nonce (r.frame.slice ++ wire) = parse cv o.r.nonce (o.r.frame.slice ++ o.wire) := by
       rw [hn, hio.fslice, hi.fslice, hw]
+    have hceq : chunksOf cv o.r o.wire = chunksOf cv r wire := by unfold chunksOf; rw [hpeq]
     cases hres : o.res with
     | pending =>
-      refine ⟨_, rfl, hio, hsame.1, hsame.2, ?_, ht, fun _ => ⟨o, rfl, by simp [PayLink, hres]⟩⟩
+      refine ⟨_, rfl, hio, hsame.1, hsame.2, ?_, ht, fun _ => ⟨o, rfl, by simp [PayLink, hres]⟩, Or.inl hceq, hwl⟩
       intro h; cases h
     | err e =>
-      refine ⟨_, rfl, hio, hsame.1, hsame.2, ?_, ht, fun _ => ⟨o, rfl, by simp [PayLink, hres]⟩⟩
+      refine ⟨_, rfl, hio, hsame.1, hsame.2, ?_, ht, fun _ => ⟨o, rfl, by simp [PayLink, hres]⟩, Or.inl hceq, hwl⟩
       intro h
       have := herr e hres
       simp at h; subst h; cases this
     | ready x =>
       cases x with
       | none =>
-        refine ⟨_, rfl, hio, hsame.1, hsame.2, ?_, ht, fun _ => ⟨o, rfl, by simp [PayLink, hres]⟩⟩
+        refine ⟨_, rfl, hio, hsame.1, hsame.2, ?_, ht, fun _ => ⟨o, rfl, by simp [PayLink, hres]⟩, Or.inl hceq, hwl⟩
         intro h; cases h
       | some n =>
         obtain ⟨a, b, t, hd, hnab, hnt⟩ := hdr_some (hr n hres)
@@ -316,11 +326,12 @@ theorem pollReadPayload_spec (cv) (script : List RdEv) (r : Reader) (wire : List
           rw [hdec] at hparse
           have hst : rstatus cv o.r o.wire = .bad := by unfold rstatus; rw [hparse]
           have htd : todo cv o.r o.wire = [] := by unfold todo; rw [hparse, hp0']; rfl
-          refine ⟨_, rfl, ?_, ?_, ?_, ?_, ht, fun _ => ⟨o, rfl, by simp [PayLink, hres, hpeq, hparse]⟩⟩
+          refine ⟨_, rfl, ?_, ?_, ?_, ?_, ht, fun _ => ⟨o, rfl, by simp [PayLink, hres, hpeq, hparse]⟩, Or.inl ?_, hwl⟩
           · exact ⟨hio.fb, hio.fc, hio.fl, hio.pc, by simp [Buffer.reset], by simp [Buffer.reset]⟩
           · rw [← hsame.1, htd]; unfold todo; simp only [hparse]; simp [Buffer.reset, Buffer.slice]
           · rw [← hsame.2, hst]; unfold rstatus; simp only [hparse]
           · intro _; rw [← hsame.1, ← hsame.2]; exact ⟨hst, htd⟩
+          · rw [← hceq]; unfold chunksOf; rfl
         | some p =>
           simp only
           rw [hdec] at hparse
@@ -339,7 +350,7 @@ theorem pollReadPayload_spec (cv) (script : List RdEv) (r : Reader) (wire : List
             refine Or.inr ⟨trivial, p, (parse cv (o.r.nonce + 1) (List.drop n t ++ o.wire)).1,
               (parse cv (o.r.nonce + 1) (List.drop n t ++ o.wire)).2, ?_, ?_⟩
             · rw [hpeq, hparse]
-            · simp [Buffer.slice, Buffer.reset]⟩⟩
+            · simp [Buffer.slice, Buffer.reset]⟩, Or.inr ⟨hp0, p, ?_, by simp [Buffer.slice, Buffer.reset]⟩, hwl⟩
           · refine ⟨by simp [Buffer.shift], by simp [Buffer.shift, hio.fc], ?_, by simp [Buffer.reset, hio.pc],
               by simp [Buffer.reset], ?_⟩
             · simp [Buffer.shift]; have := hio.fl; omega
@@ -359,6 +370,13 @@ theorem pollReadPayload_spec (cv) (script : List RdEv) (r : Reader) (wire : List
               rw [Nat.add_comm]; rfl
             rw [hdd]
           · intro h; cases h
+          · rw [← hceq]
+            unfold chunksOf
+            rw [hparse]
+            simp [Buffer.shift, Buffer.slice, hio.fb, hd, LENGTH_FIELD_LEN]
+            have hdd : List.drop (2 + n) (a :: b :: t) = List.drop n t := by
+              rw [Nat.add_comm]; rfl
+            rw [hdd]
 
 /-- **One `poll_read`, any buffer size, any behaviour of the transport during the call**: it never panics, keeps the
 representation invariant, and hands out a prefix of what is owed — nothing else, nothing twice. -/
@@ -368,24 +386,30 @@ theorem pollRead_spec (cv) (m : Nat) (script : List RdEv) (r : Reader) (wire : L
       rstatus cv o.r o.wire = rstatus cv r wire ∧
       (delivered o.res).length ≤ m ∧
       (o.res = .err .invalidData → rstatus cv r wire = .bad ∧ todo cv r wire = []) ∧
-      (∀ e ∈ o.trace, e.1 ≤ MAX_FRAME_LEN) := by
+      (∀ e ∈ o.trace, e.1 ≤ MAX_FRAME_LEN) ∧
+      (chunksOf cv o.r o.wire = chunksOf cv r wire ∨ ∃ p, chunksOf cv r wire = p :: chunksOf cv o.r o.wire) ∧
+      o.wire.length ≤ wire.length := by
   unfold pollRead
-  obtain ⟨o, ho, hio, htd, hst, hbad, ht, _⟩ := pollReadPayload_spec cv script r wire hi
+  obtain ⟨o, ho, hio, htd, hst, hbad, ht, _, hch, hwl⟩ := pollReadPayload_spec cv script r wire hi
+  have hch' : chunksOf cv o.r o.wire = chunksOf cv r wire ∨ ∃ p, chunksOf cv r wire = p :: chunksOf cv o.r o.wire := by
+    rcases hch with h | ⟨_, p, h, _⟩
+    · exact Or.inl h
+    · exact Or.inr ⟨p, h⟩
   simp only [ho]
   cases hres : o.res with
   | pending =>
-    refine ⟨_, rfl, hio, ?_, hst, by simp [delivered], ?_, ht⟩
+    refine ⟨_, rfl, hio, ?_, hst, by simp [delivered], ?_, ht, hch', hwl⟩
     · simp [delivered, htd]
     · intro h; cases h
   | err e =>
-    refine ⟨_, rfl, hio, ?_, hst, by simp [delivered], ?_, ht⟩
+    refine ⟨_, rfl, hio, ?_, hst, by simp [delivered], ?_, ht, hch', hwl⟩
     · simp [delivered, htd]
     · intro h; simp at h; subst h; exact hbad hres
   | ready u =>
     have htake : o.r.payload.begin + min m o.r.payload.len ≤ o.r.payload.stop := by
       unfold Buffer.len Buffer.stop; have := hio.pb; omega
     simp only [Buffer.take, htake, if_true]
-    refine ⟨_, rfl, ?_, ?_, ?_, ?_, ?_, ht⟩
+    refine ⟨_, rfl, ?_, ?_, ?_, ?_, ?_, ht, hch', hwl⟩
     · refine ⟨hio.fb, hio.fc, hio.fl, hio.pc, ?_, hio.pl⟩
       simp; unfold Buffer.stop at htake; exact htake
     · rw [← htd]
@@ -494,7 +518,7 @@ theorem poll_eq {α : Type} : ∀ {a b : Poll α}, a = b → True := fun _ => tr
 theorem pollRead_generous (cv) (m : Nat) (script : List RdEv) (r : Reader) (wire : List WByte) (hi : RInv r)
     (hg : Generous script) (hl : wire.length < script.length) :
     ∃ o, pollRead cv m script r wire = .ok o ∧ o.res = expected cv m r wire := by
-  obtain ⟨o, ho, hio, htd, hst, hbad, ht, hlink⟩ := pollReadPayload_spec cv script r wire hi
+  obtain ⟨o, ho, hio, htd, hst, hbad, ht, hlink, _⟩ := pollReadPayload_spec cv script r wire hi
   unfold pollRead
   simp only [ho]
   by_cases hp : r.payload.len > 0
@@ -526,7 +550,7 @@ theorem pollRead_generous (cv) (m : Nat) (script : List RdEv) (r : Reader) (wire
     rw [hf] at hf'; injection hf' with hf'; subst hf'
     unfold expected
     simp only [hs0]
-    obtain ⟨f2, hf2, hfi, hfpay, hfn, hfw, _, _, _⟩ := pollReadFrame_spec cv script r wire hi
+    obtain ⟨f2, hf2, hfi, hfpay, hfn, hfw, _, _, _, _⟩ := pollReadFrame_spec cv script r wire hi
     rw [hf] at hf2; injection hf2 with hf2; subst hf2
     have htake : o.r.payload.begin + min m o.r.payload.len ≤ o.r.payload.stop := by
       unfold Buffer.len Buffer.stop; have := hio.pb; omega
@@ -571,7 +595,7 @@ theorem runReads_spec (cv) (ops : List (Nat × List RdEv)) : ∀ (r : Reader) (w
   | cons op ops ih =>
     intro r wire hi
     obtain ⟨m, script⟩ := op
-    obtain ⟨o, ho, hio, htd, hst, _, _, _⟩ := pollRead_spec cv m script r wire hi
+    obtain ⟨o, ho, hio, htd, hst, _, _, _, _⟩ := pollRead_spec cv m script r wire hi
     obtain ⟨d, r', w', hrun, hi', htd', hst'⟩ := ih o.r o.wire hio
     refine ⟨delivered o.res ++ d, r', w', ?_, hi', ?_, ?_⟩
     · simp only [runReads, ho, hrun]
@@ -1229,4 +1253,78 @@ theorem rreach_inv {cv} {s0 : List WByte} {r : Reader} {wire : List WByte} (h : 
 
 theorem frame_length (k : Nat) (c : List Nat) : (frame k c).length = 2 + c.length + SNOW_TAGLEN := by
   simp [frame, lenBytes, enc_length]; omega
+
+/-! ## Everything owed is eventually delivered -/
+
+/-- every frame that will still authenticate carries a non-empty payload (true of all the write half produces) -/
+def NE (cv : Nat → Nat → Nat) (r : Reader) (wire : List WByte) : Prop := ∀ c ∈ chunksOf cv r wire, c ≠ []
+
+theorem take_ne_nil {α : Type} {m : Nat} {l : List α} (hm : 0 < m) (hl : l ≠ []) : l.take m ≠ [] := by
+  cases l with
+  | nil => exact absurd rfl hl
+  | cons x xs =>
+    cases m with
+    | zero => omega
+    | succ k => simp
+
+theorem pollRead_progress (cv) (m : Nat) (script : List RdEv) (r : Reader) (wire : List WByte) (hi : RInv r)
+    (hg : Generous script) (hl : wire.length < script.length) (hm : 0 < m) (hne : NE cv r wire)
+    (htd : todo cv r wire ≠ []) :
+    ∃ o, pollRead cv m script r wire = .ok o ∧ delivered o.res ≠ [] := by
+  obtain ⟨o, ho, hres⟩ := pollRead_generous cv m script r wire hi hg hl
+  refine ⟨o, ho, ?_⟩
+  rw [hres]
+  unfold expected
+  cases hs : r.payload.slice with
+  | cons x xs => simp only [delivered]; exact take_ne_nil hm (by simp)
+  | nil =>
+    simp only
+    have hch : (chunksOf cv r wire).flatten ≠ [] := by
+      intro h; apply htd; unfold todo; rw [hs]; simpa [chunksOf] using h
+    unfold NE chunksOf at *
+    generalize parse cv r.nonce (r.frame.slice ++ wire) = pr at *
+    obtain ⟨cs, st⟩ := pr
+    cases cs with
+    | nil => simp at hch
+    | cons c rest =>
+      simp only [delivered]
+      exact take_ne_nil hm (hne c (by simp))
+
+theorem drain (cv) (m : Nat) (gs : List RdEv) (hm : 0 < m) (hg : Generous gs) : ∀ (N : Nat) (r : Reader)
+    (wire : List WByte), RInv r → NE cv r wire → wire.length < gs.length → (todo cv r wire).length ≤ N →
+    ∃ r' w', runReads cv (List.replicate N (m, gs)) r wire = .ok (todo cv r wire, r', w') ∧
+      todo cv r' w' = [] ∧ rstatus cv r' w' = rstatus cv r wire := by
+  intro N
+  induction N with
+  | zero =>
+    intro r wire _ _ _ hN
+    have h0 : todo cv r wire = [] := List.eq_nil_of_length_eq_zero (by omega)
+    exact ⟨r, wire, by simp [runReads, h0], h0, rfl⟩
+  | succ N ih =>
+    intro r wire hi hne hl hN
+    obtain ⟨o, ho, hio, htd, hst, _, _, _, hch, hwl⟩ := pollRead_spec cv m gs r wire hi
+    have hne' : NE cv o.r o.wire := by
+      intro c hc
+      rcases hch with h | ⟨p, h⟩
+      · exact hne c (by rw [← h]; exact hc)
+      · exact hne c (by rw [h]; exact List.mem_cons_of_mem _ hc)
+    have hlen' : (todo cv o.r o.wire).length ≤ N := by
+      by_cases h0 : todo cv r wire = []
+      · rw [h0] at htd
+        have : todo cv o.r o.wire = [] := by
+          have := congrArg List.length htd
+          simp at this
+          exact List.eq_nil_of_length_eq_zero (by omega)
+        rw [this]; simp
+      · obtain ⟨o', ho', hd⟩ := pollRead_progress cv m gs r wire hi hg hl hm hne h0
+        rw [ho] at ho'; injection ho' with ho'; subst ho'
+        have hpos : 0 < (delivered o.res).length := List.length_pos_iff.mpr hd
+        have := congrArg List.length htd
+        simp at this
+        omega
+    obtain ⟨r', w', hrun, htd', hst'⟩ := ih o.r o.wire hio hne' (by omega) hlen'
+    refine ⟨r', w', ?_, htd', by rw [hst', hst]⟩
+    simp only [List.replicate_succ, runReads, ho, hrun]
+    rw [htd]
+
 end EraVerif.Proofs.Noise
